@@ -19,6 +19,9 @@ enum Op {
     DeliverT1Ttl120,
     DeliverT1Ttl4500,
     DeliverH1Addr,
+    /// disable_interface(All) / enable_interface(All): no interface for a while
+    DisableAll,
+    EnableAll,
 }
 const OPS: [Op; 12] = [
     Op::BrowseT1,
@@ -77,6 +80,10 @@ fn run_case(seq: &[(Op, u64)], horizon: u64, trace: bool) -> CaseResult {
     let mut optional_from: Vec<(usize, u64)> = vec![];
     // periods in which somebody listens to T1 (search or cache-only), for the refresh exemption
     let mut cache_listen: Vec<(u64, Option<u64>)> = vec![];
+    // periods without any interface: what falls due then cannot be seen on the wire
+    let mut down: Vec<(u64, Option<u64>)> = vec![];
+    // moments an interface appeared while searches were open: one query each is allowed then
+    let mut appeared: Vec<u64> = vec![];
     for (op, off) in seq {
         w.advance(*off);
         let now = w.now;
@@ -150,12 +157,29 @@ fn run_case(seq: &[(Op, u64)], horizon: u64, trace: bool) -> CaseResult {
                 w.ds[0].h.stop_resolve_hostname("h1.local.").unwrap();
                 w.poke(0);
             }
+            Op::DeliverT1Ttl120 | Op::DeliverT1Ttl4500 if down.last().is_some_and(|d| d.1.is_none()) => {}
+            Op::DeliverH1Addr if down.last().is_some_and(|d| d.1.is_none()) => {}
             Op::DeliverT1Ttl120 | Op::DeliverT1Ttl4500 => {
                 let ttl = if *op == Op::DeliverT1Ttl120 { 120 } else { 4500 };
                 if open(&searches, Key::T1).is_some() || cache_listen.iter().any(|c| c.1.is_none()) {
                     ptr_arrivals.push((now, ttl as u64 * 1000));
                 }
                 w.deliver(0, IF0, PEER0, build(&response(i1.all(ttl))));
+            }
+            Op::DisableAll => {
+                w.ds[0].h.disable_interface(mdns_sd::IfKind::All).unwrap();
+                w.poke(0);
+                if down.last().map_or(true, |d| d.1.is_some()) {
+                    down.push((now, None));
+                }
+            }
+            Op::EnableAll => {
+                w.ds[0].h.enable_interface(mdns_sd::IfKind::All).unwrap();
+                w.poke(0);
+                if let Some(d) = down.last_mut().filter(|d| d.1.is_none()) {
+                    d.1 = Some(now);
+                    appeared.push(now);
+                }
             }
             Op::DeliverH1Addr => {
                 // an address record is cached whether or not a resolver is open yet
@@ -189,10 +213,17 @@ fn run_case(seq: &[(Op, u64)], horizon: u64, trace: bool) -> CaseResult {
         observed.sort_unstable();
         let mut expected: Vec<u64> = vec![];
         let mut optional: Vec<u64> = vec![];
+        let is_down = |t: u64| down.iter().any(|(a, b)| *a <= t && b.map_or(true, |b| t <= b));
         for (idx, (k, s, e)) in searches.iter().enumerate() {
             if *k == key {
                 let from = optional_from.iter().filter(|o| o.0 == idx).map(|o| o.1).min();
                 for t in schedule(*s, e.unwrap_or(end)) {
+                    if is_down(t) {
+                        // due while there was no interface: nothing can be seen (at the very moment
+                        // of the change either way)
+                        optional.push(t);
+                        continue;
+                    }
                     if from.is_some_and(|f| t >= f) {
                         optional.push(t);
                     } else {
@@ -205,6 +236,12 @@ fn run_case(seq: &[(Op, u64)], horizon: u64, trace: bool) -> CaseResult {
         // exempt: refresh marks of records the harness delivered while the search was open
         let mut exempt: Vec<u64> = vec![];
         let open_at = |t: u64| searches.iter().any(|(k, s, e)| *k == key && *s <= t && e.map_or(true, |e| t <= e)) || (key == Key::T1 && cache_listen.iter().any(|(s, e)| *s <= t && e.map_or(true, |e| t <= e)));
+        // the one query sent when an interface appears, per search open at that moment
+        for t in &appeared {
+            if open_at(*t) {
+                exempt.push(*t);
+            }
+        }
         match key {
             Key::T1 => {
                 for (arr, life) in &ptr_arrivals {
@@ -401,7 +438,7 @@ pub fn check(tier: &str) -> i32 {
     rep.run_part(&one, Duration::from_secs(if thorough { 3000 } else { 120 }));
     rep.require("one-type-browsed-again-and-again", "queries_of_a_search_whose_listener_a_cache_only_browse_took_over");
     // searches of different kinds started and stopped next to each other
-    const MOPS: [Op; 8] = [Op::BrowseT1, Op::StopT1, Op::ResolveH1, Op::StopH1, Op::BrowseT2, Op::BrowseCacheT1, Op::ResolveH1Timeout5s, Op::DeliverH1Addr];
+    const MOPS: [Op; 10] = [Op::BrowseT1, Op::StopT1, Op::ResolveH1, Op::StopH1, Op::BrowseT2, Op::BrowseCacheT1, Op::ResolveH1Timeout5s, Op::DeliverH1Addr, Op::DisableAll, Op::EnableAll];
     const MOFFS: [u64; 2] = [300, 1500];
     let mdepth = if thorough { 5 } else { 3 };
     let mm = (MOPS.len() * MOFFS.len()) as u64;
@@ -417,7 +454,7 @@ pub fn check(tier: &str) -> i32 {
     };
     let mixed = FnPart {
         name: "searches-of-different-kinds-side-by-side".into(),
-        rule: format!("every sequence of exactly {mdepth} (operation, offset) pairs over browse T1 / stop T1 / resolve H1 / stop H1 / browse T2 / cache-only browse T1 / resolve H1 with a 5 s timeout / an address answer x offsets {{0.3, 1.5 s}}, then 1 virtual day; same oracle (stopping one search must leave the schedules of the others alone)"),
+        rule: format!("every sequence of exactly {mdepth} (operation, offset) pairs over browse T1 / stop T1 / resolve H1 / stop H1 / browse T2 / cache-only browse T1 / resolve H1 with a 5 s timeout / an address answer / all interfaces disabled / all enabled again x offsets {{0.3, 1.5 s}}, then 1 virtual day; same oracle (stopping one search must leave the schedules of the others alone)"),
         n: mn,
         describe: Box::new(move |i| format!("{:?}", mseq(i))),
         run: Box::new(move |i, tr| run_case(&mseq(i), 24 * 3600 * 1000, tr)),
